@@ -149,7 +149,20 @@ STD_INVALID = {
     "distribution": [opt("bogus", flow=dict(distribution="bogus"))],
     "unknown_kwarg": [opt("not_an_option", init=dict(not_an_option=1))],
     "shrinkage_expectation": [opt("bogus", init=dict(shrinkage_expectation="bogus"))],
+    # the options the generated table of raise sites lists as validated late (Props/C20.lean knownLateOptions)
+    "result_extension": [opt("bogus", init=dict(result_extension="bogus"))],
+    "posterior_sampling_method": [opt("bogus", run=dict(posterior_sampling_method="bogus"))],
+    "batch_size": [opt("1", training=dict(batch_size=1))],
 }
+# fixed option pairs that cross the training path with the data-handling options (run in every tier)
+STD_QUICK_PAIRS = [
+    (["memory:20", "maximum_uninformed:0"], dict(init=dict(memory=20, maximum_uninformed=0))),
+    (["reset_flow:True", "maximum_uninformed:0"], dict(init=dict(reset_flow=True, maximum_uninformed=0))),
+    (["train_on_empty:False", "memory:20"], dict(init=dict(train_on_empty=False, training_frequency=25, memory=20))),
+    (["memory:20", "training_frequency:20", "reset_weights:2"], dict(init=dict(memory=20, training_frequency=20, reset_weights=2))),
+    (["maximum_uninformed:0", "latent_prior:flow+cvm=False", "fixed_radius:2.0"],
+     dict(init=dict(maximum_uninformed=0, latent_prior="flow", constant_volume_mode=False, fixed_radius=2.0))),
+]
 STD_QUICK = ["flow_proposal_class:AugmentedFlowProposal", "linear_transform:svd", "ftype:MAF", "ftype:NSF", "latent_prior:uniform_nball",
              "latent_prior:gaussian+cvm=False", "latent_prior:flow+cvm=False", "truncate_log_q:True", "accumulate_weights:True",
              "reparameterisations:inversion", "reparameterisations:logit", "reset_flow:True", "training_frequency:20",
@@ -203,6 +216,8 @@ INS_INVALID = {
     "reparameterisation": [opt("bogus", init=dict(reparameterisation="bogus"))],
     "min_samples": [opt(">nlive", init=dict(min_samples=1000))],
     "unknown_kwarg": [opt("not_an_option", init=dict(not_an_option=1))],
+    "result_extension": [opt("bogus", init=dict(result_extension="bogus"))],
+    "posterior_sampling_method": [opt("bogus", run=dict(posterior_sampling_method="bogus"))],
 }
 # option values left out of the pairwise array: they fail on their own (replayed as findings)
 PAIR_EXCLUDE = {"train_final_flow", "bootstrap", "redraw_samples"}
@@ -218,6 +233,11 @@ KNOWN_KEYS = [
      "ImportanceNestedSampler.draw_final_samples:max_samples_ratio=None-TypeError"),
     ("ins", ["redraw_samples:"], ("AttributeError",), "unnormalised_weights",
      "ImportanceNestedSampler.draw_final_samples:redraw_samples-undefined-attribute"),
+    ("std", ["result_extension:bogus"], ("RuntimeError",), "Unknown file extension", "FlowSampler:result_extension=<unknown>:rejected-after-sampling-finished"),
+    ("ins", ["result_extension:bogus"], ("RuntimeError",), "Unknown file extension", "FlowSampler:result_extension=<unknown>:rejected-after-sampling-finished"),
+    ("std", ["posterior_sampling_method:bogus"], ("ValueError",), "", "FlowSampler:posterior_sampling_method=<unknown>:rejected-after-sampling-finished"),
+    ("ins", ["posterior_sampling_method:bogus"], ("ValueError",), "", "FlowSampler:posterior_sampling_method=<unknown>:rejected-after-sampling-finished"),
+    ("std", ["batch_size:1"], ("ValueError",), "batch size of 1", "NestedSampler:batch_size=1:rejected-at-first-training"),
     ("ins", ["threshold_method:bogus"], ("ValueError",), "", "ImportanceNestedSampler:threshold_method=<unknown>:rejected-after-sampling-started"),
     ("ins", ["reparameterisation:bogus"], ("ValueError",), "", "ImportanceNestedSampler:reparameterisation=<unknown>:rejected-after-sampling-started"),
     ("ins", ["draw_constant:False"], ("ValueError",), "zero-size array",
